@@ -272,7 +272,7 @@ func runCopy(c c15Case, srcDir, dstDir string) error {
 	})
 }
 
-func judgeC15(c c15Case) (string, string) {
+func judgeC15Raw(c c15Case) (string, string) {
 	root := scratch.Dir("ov")
 	defer scratch.Remove(root)
 	// the roots carry pattern metacharacters in their own names: only what lies below a root is ever matched
@@ -602,4 +602,14 @@ func replayC15(raw json.RawMessage) string {
 		return ""
 	}
 	return k + ": " + m
+}
+
+// judgeC15 is judgeC15Raw with a panic of the code under test turned into a verdict (never a crash of the check).
+func judgeC15(c c15Case) (k, m string) {
+	defer func() {
+		if r := recover(); r != nil {
+			k, m = "panic", fmt.Sprintf("the code under test panicked: %v", r)
+		}
+	}()
+	return judgeC15Raw(c)
 }
